@@ -13,6 +13,8 @@ from .symeval_ops import BoundBuiltin, DerivV, NTClassV, NTV, ExcV, ChunkListV, 
 
 
 _MATH1 = {"exp": ep.exp_, "log": ep.log_, "sqrt": ep.sqrt_}
+import re as _re_mod
+_SYMNUM = _re_mod.compile(r"^@[A-Za-z_][A-Za-z_0-9]*$")
 _CONSUMERS = {"sorted", "list", "tuple", "set", "frozenset", "map", "filter", "zip", "dict", "sum", "min", "max", "any", "all", "enumerate", "reversed", "len"}
 
 
@@ -70,6 +72,9 @@ class ExtMixin(object):
         v = args[0]
         if isinstance(v, Num):
             return v
+        if isinstance(v, Const) and isinstance(v.v, str) and _SYMNUM.match(v.v.strip()):
+            # analysis convention: the text '@name' in a model input stands for an arbitrary number called name
+            return Num(ep.sym(v.v.strip()[1:]), True)
         if isinstance(v, Const) and isinstance(v.v, str):
             try:
                 return Num(ep.const(Fraction(v.v.strip()))) if v.v.strip() not in ("inf", "-inf") else Num(ep.sym(v.v.strip()))
@@ -88,6 +93,8 @@ class ExtMixin(object):
             if not v.inexact:
                 return v
             return Num(ep.app("int", [v.rf]))
+        if isinstance(v, Const) and isinstance(v.v, str) and _SYMNUM.match(v.v.strip()):
+            return Num(ep.sym(v.v.strip()[1:]))        # '@name': an arbitrary whole number called name
         if isinstance(v, Const) and isinstance(v.v, str):
             try:
                 return Num(ep.const(int(v.v)))
@@ -177,6 +184,8 @@ class ExtMixin(object):
         v = args[0]
         if isinstance(v, DictV):
             v = ListV([k for k, _ in v.items.values()], "list")
+        if isinstance(v, NTV):
+            v = ListV(list(v.values), "tuple")
         if isinstance(v, SeqV) and v.kind in ("seqmap", "family"):
             t = self.truth(v.elem)
             if isinstance(t, bool) and t == isand:
@@ -454,6 +463,23 @@ class ExtMixin(object):
 
     def x_isinstance(self, args, kwargs, node, env):
         v, c = args
+        if isinstance(c, ListV) and c.kind == "tuple":
+            res = [self.x_isinstance([v, ci], {}, node, env) for ci in c.items]
+            if all(isinstance(r, Const) for r in res):
+                return Const(any(r.v for r in res))
+            self.err(node, "isinstance against a tuple with undecided members")
+        if isinstance(v, ExcV):
+            if isinstance(c, ClassV) and isinstance(v.cls, ClassV):
+                return Const(v.cls.ci.is_subclass_of(c.ci))
+            if isinstance(c, ClassV):
+                return Const(False)
+            if isinstance(c, ExtV):
+                class _H(object):
+                    type = None
+                fake = ast.ExceptHandler(type=ast.Name(id="_t", ctx=ast.Load()), name=None, body=[])
+                e2 = Env(parent=env, label=env.label if env is not None else "?")
+                e2.vars["_t"] = c
+                return Const(bool(self.handler_matches(fake, v, e2)))
         if isinstance(v, (Opaque, LookupV)) or (isinstance(v, InstV) and v.label is not None and not isinstance(c, ClassV)):
             r = self.assume(Cond("isinstance", v, c))
             return Const(r) if isinstance(r, bool) else r
@@ -614,6 +640,21 @@ class ExtMixin(object):
 
     def x_itertools_chain_from_iterable(self, args, kwargs, node, env):
         outer = self.as_iterable(args[0], node)
+        if isinstance(outer, SeqV) and outer.kind in ("seqmap", "family"):
+            # one inner sequence per element of a symbolic sequence: the concatenation, element by element
+            self.event_stack.append([])
+            try:
+                inner = self.as_iterable(outer.elem, node)
+            finally:
+                evs = self.event_stack.pop()
+            if evs:
+                self.log_event(("loop", evs))
+            if isinstance(inner, ListV) and getattr(inner, "tail", None):
+                inner = self.as_iterable(inner, node)
+            parts = list(inner.parts) if isinstance(inner, SeqV) and inner.kind == "concat" else [inner]
+            if outer.kind == "seqmap":
+                return SeqV("nested", var=outer.var, lo=ep.const(0), hi=self.seq_len(outer.seq), seq=outer.seq, parts=parts)
+            return SeqV("nested", var=outer.var, lo=outer.lo, hi=outer.hi, seq=None, parts=parts)
         if not isinstance(outer, ListV):
             self.err(node, "chain.from_iterable over a symbolic sequence")
         subs = [self.as_iterable(sub, node) for sub in outer.items]
@@ -648,6 +689,13 @@ class ExtMixin(object):
         if not isinstance(seq, ListV):
             self.err(node, "combinations of a symbolic sequence")
         return ListV([ListV(list(p), "tuple") for p in _it.combinations(seq.items, int(args[1].const()))], "list")
+
+    def x_collections_defaultdict(self, args, kwargs, node, env):
+        if kwargs or len(args) > 1:
+            self.err(node, "collections.defaultdict with initial items")
+        d = DictV()
+        d.default_factory = args[0] if args and not (isinstance(args[0], Const) and args[0].v is None) else None
+        return d
 
     def x_staticmethod(self, args, kwargs, node, env):
         return StaticV(args[0])
